@@ -1913,7 +1913,11 @@ impl KotoVm {
             self,
             RemainderAssign,
             remainder_assign,
-            |a: &KNumber, b: &KNumber| a % b,
+            |a: &KNumber, b: &KNumber| match b {
+                // Match the `%` operator: an integer zero divisor yields NaN rather than a panic
+                KNumber::I64(0) => KNumber::from(f64::NAN),
+                _ => a % b,
+            },
             lhs,
             rhs
         )
